@@ -15,12 +15,13 @@ structure PView (g' g : FileDesc) : Prop where
   target : g'.target = g.target
   nSym : g'.nSym = g.nSym
   pub : g.published = true → g'.published = true
+  faults : g'.faults = g.faults
 
-theorem PView.refl (g : FileDesc) : PView g g := ⟨rfl, rfl, rfl, rfl, rfl, rfl, id⟩
+theorem PView.refl (g : FileDesc) : PView g g := ⟨rfl, rfl, rfl, rfl, rfl, rfl, id, rfl⟩
 
 theorem PView.trans {g2 g1 g0 : FileDesc} (h1 : PView g2 g1) (h0 : PView g1 g0) : PView g2 g0 :=
   ⟨h1.prio.trans h0.prio, h1.info.trans h0.info, h1.maxCount.trans h0.maxCount, h1.carousel.trans h0.carousel,
-   h1.target.trans h0.target, h1.nSym.trans h0.nSym, fun h => h1.pub (h0.pub h)⟩
+   h1.target.trans h0.target, h1.nSym.trans h0.nSym, fun h => h1.pub (h0.pub h), h1.faults.trans h0.faults⟩
 
 theorem PView.wants {g' g : FileDesc} (h : PView g' g) : wantsTick g' = wantsTick g := by
   unfold wantsTick; rw [h.target, h.nSym]
@@ -42,7 +43,7 @@ theorem PView.should {g' g : FileDesc} (h : PView g' g) (P now : Nat) (mode : Mo
 
 theorem pubMark_pview (fs : List Nat) (g : FileDesc) : PView (pubMark fs g) g := by
   unfold pubMark; split
-  · exact ⟨rfl, rfl, rfl, rfl, rfl, rfl, fun _ => rfl⟩
+  · exact ⟨rfl, rfl, rfl, rfl, rfl, rfl, fun _ => rfl, rfl⟩
   · exact PView.refl g
 
 /-- relation between two states of one `read`, seen from priority `P` -/
@@ -163,6 +164,8 @@ theorem Rel.upd {P : Nat} {s s' : State} (k : Nat) (gf : FileDesc → FileDesc)
 structure WRP (P now : Nat) (s : State) : Prop where
   ex : ∃ t, findNext s P now s.queue = some t
   stale : ∀ u ∈ s.queue, ∀ g, getF s.objs u = some g → g.prio = P → wantsTick g = false → g.info.nextTs = none
+  /-- the sources of the waiting objects of priority `P` do not fail -/
+  nofault : ∀ u ∈ s.queue, ∀ g, getF s.objs u = some g → g.prio = P → g.faults = []
 
 theorem findNext_some_of_exists {s : State} {P now : Nat} : ∀ (l : List Nat),
     (∃ u ∈ l, ∃ g, getF s.objs u = some g ∧ shouldTransferNow g P s.cfg.mode now = true) →
@@ -191,16 +194,21 @@ theorem WRP.of_rel {P now : Nat} {s s' : State} (hr : Rel P s s') (h : WRP P now
   obtain ⟨_, _, _, _, g, hg, hs⟩ := findNext_spec s P now s.queue t ht
   have hp : g.prio = P := (shouldTransferNow_true hs).1
   obtain ⟨hu', g', hg', v⟩ := hr.fwd t (findNext_mem ht) g hg hp
-  refine ⟨findNext_some_of_exists _ ⟨t, hu', g', hg', by rw [hr.mode]; exact v.should P now _ hs⟩, ?_⟩
-  intro u hu g2 hg2 hp2 hw
-  obtain ⟨hu0, g0, hg0, v0⟩ := hr.bwd u hu g2 hg2 hp2
-  rw [v0.info]
-  exact h.stale u hu0 g0 hg0 (v0.prio.symm.trans hp2) (by rw [← v0.wants]; exact hw)
+  refine ⟨findNext_some_of_exists _ ⟨t, hu', g', hg', by rw [hr.mode]; exact v.should P now _ hs⟩, ?_, ?_⟩
+  · intro u hu g2 hg2 hp2 hw
+    obtain ⟨hu0, g0, hg0, v0⟩ := hr.bwd u hu g2 hg2 hp2
+    rw [v0.info]
+    exact h.stale u hu0 g0 hg0 (v0.prio.symm.trans hp2) (by rw [← v0.wants]; exact hw)
+  · intro u hu g2 hg2 hp2
+    obtain ⟨hu0, g0, hg0, v0⟩ := hr.bwd u hu g2 hg2 hp2
+    rw [v0.faults]
+    exact h.nofault u hu0 g0 hg0 (v0.prio.symm.trans hp2)
 
 theorem WRP.ready {P now : Nat} {s : State} (h : WRP P now s) : ∃ t f, WaitReady s P now t f := by
   obtain ⟨t, ht⟩ := h.ex
   obtain ⟨_, _, _, _, g, hg, hs⟩ := findNext_spec s P now s.queue t ht
-  exact ⟨t, g, ht, hg, h.stale t (findNext_mem ht) g hg (shouldTransferNow_true hs).1⟩
+  exact ⟨t, g, ht, hg, h.stale t (findNext_mem ht) g hg (shouldTransferNow_true hs).1,
+    h.nofault t (findNext_mem ht) g hg (shouldTransferNow_true hs).1⟩
 
 /-! ### the FDT session -/
 
@@ -296,7 +304,7 @@ theorem runFile_otherprio {P p0 : Nat} (hp : p0 ≠ P) (now : Nat) (ticks : List
   | zero => intro s cur hc; exact ⟨Rel.refl P s, hc, fun _ _ _ _ e => (by cases e)⟩
   | succ n ih =>
     intro s cur hc
-    have key : ∀ (s1 : State) (cur1 : Option Cur), Rel P s s1 →
+    have key : ∀ (fr : Bool) (s1 : State) (cur1 : Option Cur), Rel P s s1 →
         (∀ c, cur1 = some c → ∀ g, getF s1.objs c.key = some g → g.prio = p0) →
         let r := (if !s1.fdtQueue.isEmpty then (s1, cur1, Out.none) else
           match cur1 with
@@ -307,11 +315,15 @@ theorem runFile_otherprio {P p0 : Nat} (hp : p0 ≠ P) (now : Nat) (ticks : List
             | some f =>
               if gateBlocked f now then (s1, cur1, Out.none) else
               match encRead f.nSym c.enc (canStop f && !s1.files.contains c.key) with
-              | (none, _) => runFile n (transferDoneFile s1 c.key now) p0 none now ticks
+              | (none, _) =>
+
+                if fr then (transferDoneFile s1 c.key now, none, Out.none)
+
+                else runFile n (transferDoneFile s1 c.key now) p0 none now ticks
               | (some (idx, b), e) => (pktStep s1 p0 c.key now idx b, some { c with enc := e }, Out.pkt p0 c.key idx b))
         Rel P s r.1 ∧ (∀ c, r.2.1 = some c → ∀ g, getF r.1.objs c.key = some g → g.prio = p0) ∧
           (∀ p t i b, r.2.2 = Out.pkt p t i b → p = p0) := by
-      intro s1 cur1 h1 hc1
+      intro fr s1 cur1 h1 hc1
       simp only []
       split
       · exact ⟨h1, hc1, fun _ _ _ _ e => (by cases e)⟩
@@ -339,8 +351,14 @@ theorem runFile_otherprio {P p0 : Nat} (hp : p0 ≠ P) (now : Nat) (ticks : List
                       · rcases List.mem_append.mp hu with h | h
                         · exact h
                         · simp at h; exact absurd h hne)
-                obtain ⟨r1, r2, r3⟩ := ih (transferDoneFile s1 c.key now) none (fun _ e => by cases e)
-                exact ⟨(h1.trans hd).trans r1, r2, r3⟩
+                cases fr with
+                | true =>
+                  simp only [if_true]
+                  exact ⟨h1.trans hd, fun _ e => (by cases e), fun _ _ _ _ e => (by cases e)⟩
+                | false =>
+                  simp only [Bool.false_eq_true, if_false]
+                  obtain ⟨r1, r2, r3⟩ := ih (transferDoneFile s1 c.key now) none (fun _ e => by cases e)
+                  exact ⟨(h1.trans hd).trans r1, r2, r3⟩
               · have hk : ∀ idx b, Rel P s1 (pktStep s1 p0 c.key now idx b) := fun idx b =>
                   Rel.upd c.key tickInfo (fun _ => ⟨rfl, rfl⟩) hkp rfl rfl (fun _ hu _ => hu) (fun _ hu _ => hu)
                 refine ⟨h1.trans (hk _ _), ?_, ?_⟩
@@ -354,19 +372,45 @@ theorem runFile_otherprio {P p0 : Nat} (hp : p0 ≠ P) (now : Nat) (ticks : List
                   exact e'.1.symm
     unfold runFile
     cases cur with
-    | some c => exact key s (some c) (Rel.refl P s) hc
+    | some c => exact key false s (some c) (Rel.refl P s) hc
     | none =>
       simp only []
       cases hg : getNextFile s p0 now ticks with
       | mk s' r =>
         obtain ⟨h1, h2⟩ := Rel.getNextFile hp hg
         cases r with
-        | none => exact key s' none h1 (fun _ e => by cases e)
+        | none => exact key true s' none h1 (fun _ e => by cases e)
         | some t =>
-          exact key s' (some (startCur s' t)) h1 (fun c e g hg' => by
-            simp only [Option.some.injEq] at e
-            rw [← e] at hg'
-            exact h2 t rfl g hg')
+          simp only []
+          cases ho : openFailed true s' (some (startCur s' t)) with
+          | none =>
+            exact key true s' (some (startCur s' t)) h1 (fun c e g hg' => by
+              simp only [Option.some.injEq] at e
+              rw [← e] at hg'
+              exact h2 t rfl g hg')
+          | some kf =>
+            obtain ⟨k', f'⟩ := kf
+            obtain ⟨_, c, e1, e2, _, _⟩ := openFailed_some ho
+            simp only [Option.some.injEq] at e1
+            subst e1
+            have hk : k' = t := e2.symm
+            subst hk
+            simp only []
+            have hd : Rel P s' (transferDoneFile s' k' now) :=
+              Rel.upd k' (fun g => transferDoneInfo g now) (fun _ => ⟨rfl, rfl⟩)
+                (fun g hg => by rw [h2 k' rfl g hg]; exact hp)
+                (transferDoneFile_objs s' k' now) (transferDoneFile_cfg s' k' now)
+                (fun u hu _ => by
+                  rcases transferDoneFile_queue_cases s' k' now with e | e <;> rw [e]
+                  · exact hu
+                  · exact List.mem_append_left _ hu)
+                (fun u hu hne => by
+                  rcases transferDoneFile_queue_cases s' k' now with e | e <;> rw [e] at hu
+                  · exact hu
+                  · rcases List.mem_append.mp hu with h | h
+                    · exact h
+                    · simp at h; exact absurd h hne)
+            exact ⟨h1.trans hd, fun _ e => (by cases e), fun _ _ _ _ e => (by cases e)⟩
 
 theorem readQueue_otherprio {P : Nat} (now : Nat) (ticks : List (Nat × Nat)) :
     ∀ k (s : State) (q0 : QSess), q0.prio ≠ P →
@@ -525,7 +569,9 @@ theorem read_wait (cfg : Cfg) (tbl : List Nat) (ops : List Op) (pre post : List 
     (curj : Option Cur) (hfree : q.slots[j]? = some curj) (hav : Avail (run (init cfg tbl) ops) now curj)
     (hfind : findNext (run (init cfg tbl) ops) q.prio now (run (init cfg tbl) ops).queue = some t)
     (hstale : ∀ u ∈ (run (init cfg tbl) ops).queue, ∀ g, getF (run (init cfg tbl) ops).objs u = some g →
-      g.prio = q.prio → wantsTick g = false → g.info.nextTs = none) :
+      g.prio = q.prio → wantsTick g = false → g.info.nextTs = none)
+    (hnf : ∀ u ∈ (run (init cfg tbl) ops).queue, ∀ g, getF (run (init cfg tbl) ops).objs u = some g →
+      g.prio = q.prio → g.faults = []) :
     (read (run (init cfg tbl) ops) now ticks).2 ≠ Out.none ∧
     ∀ p t i b, (read (run (init cfg tbl) ops) now ticks).2 = Out.pkt p t i b →
       p ∈ (pre ++ [q]).map (fun x => x.prio) := by
@@ -536,7 +582,7 @@ theorem read_wait (cfg : Cfg) (tbl : List Nat) (ops : List Op) (pre post : List 
   obtain ⟨hw, hquiet⟩ := hwq
   have hheld : heldOf s = held pre ++ (heldQ q ++ held post) := by
     unfold heldOf; rw [hsess]; simp [held]
-  have hwrp : WRP q.prio now s := ⟨⟨t, hfind⟩, hstale⟩
+  have hwrp : WRP q.prio now s := ⟨⟨t, hfind⟩, hstale, hnf⟩
   have hpre : PreOk q.prio pre s := by
     intro q0 hq0
     refine ⟨hne q0 hq0, ?_⟩
@@ -675,7 +721,7 @@ theorem StaleInv.closed : Closed0 StaleInv where
     · exact publishTry_elim (P := fun x => StaleInv x L) _ now (h1.publish now) h1
     · exact h1
   pkt := fun s L _ c _ _ _ _ _ _ h _ _ _ _ _ => h.updF _ _ c.key tickInfo stale_tickInfo rfl
-  done := fun s L _ c now _ _ _ h _ _ _ _ _ =>
+  done := fun s L _ c now _ _ _ h _ _ _ =>
     h.updF _ _ c.key (fun f => transferDoneInfo f now) (fun _ => ⟨rfl, fun _ hn => hn⟩) (transferDoneFile_objs s c.key now)
   fdtPkt := fun _ _ _ _ _ _ _ _ _ h _ _ _ _ _ => h
   fdtDone := fun s L c _ now _ _ h _ _ _ _ _ =>
